@@ -1211,3 +1211,114 @@ func TestC10ClosePanics(t *testing.T) {
 		}
 	})
 }
+
+// TestC11FailedBuild: a Build that fails half-way disposes what it has built -
+// the provider's singletons and whatever the root scope owns - and for that
+// disposal the order rules hold like for any other: reverse order of creation
+// among the singletons, every scope-owned instance before any singleton, no
+// dependency before its dependent.
+func TestC11FailedBuild(t *testing.T) {
+	col := evid.New("C11", "failed-build", "singleton- and disposable-rich configurations with dependency chains; a dry run counts the constructor invocations of Build, then Build is made to fail at the k-th of them (every k for small cases): the constructor returns an error or panics, or the context given to BuildWithContext is cancelled from inside it; oracle = the C11 stamp oracle over the disposal the failed Build performs (reverse creation order per owner, scope-owned before singletons, no dependency closed before an open dependent); non-trivial = the failing Build had constructed >=2 disposable singletons of which one depends on the other")
+	defer col.Flush()
+	rapid.Check(t, func(rt *rapid.T) {
+		o := dispOpts()
+		o.ChainBias = true
+		o.Lifetimes = []int{kit.Singleton, kit.Singleton, kit.Singleton, kit.Scoped, kit.Transient}
+		cfg := kit.GenConfig(rt, o)
+		cfg.BuildMode = 0
+		dry, err := startRun(kit.CloneConfig(cfg), nil)
+		if err != nil {
+			rt.Fatal(err)
+		}
+		if dry.Build.Err != nil || dry.Build.Panic != nil {
+			col.Case(false, cfg.String(), nil, "build-failed(not judged here)")
+			return
+		}
+		invs := dry.W.AllInvs()
+		dry.R.CloseProvider()
+		n := len(invs)
+		if n == 0 {
+			col.Case(false, cfg.String(), nil, "no-constructor-runs")
+			return
+		}
+		ks := []int{rapid.IntRange(1, n).Draw(rt, "k")}
+		if n <= 8 && rapid.IntRange(0, 2).Draw(rt, "all") == 0 {
+			ks = ks[:0]
+			for k := 1; k <= n; k++ {
+				ks = append(ks, k)
+			}
+		}
+		mode := rapid.IntRange(0, 2).Draw(rt, "failureMode")
+		for _, k := range ks {
+			w, _ := kit.NewWorld(kit.CloneConfig(cfg))
+			r := kit.NewRunner(w)
+			x := &run{Cfg: w.Cfg, W: w, M: w.M, R: r}
+			inv := invs[k-1]
+			reg := w.M.Regs[inv.Reg]
+			how := "error/panic"
+			if mode == 2 {
+				how = "context-cancelled"
+				ctx, cancel := context.WithCancel(context.Background())
+				seen := 0
+				w.SetGate(func(gp kit.GatePoint) {
+					if gp.Kind == kit.GateCtorExit {
+						seen++
+						if seen == k {
+							cancel()
+						}
+					}
+				})
+				x.Build = r.BuildWithContext(ctx)
+				w.SetGate(nil)
+				cancel()
+			} else {
+				w.Faults[[2]int{inv.Reg, inv.N}] = faultFor(reg, mode)
+				x.Build = r.Build(nil)
+			}
+			related := false
+			var built []*kit.Entry
+			for _, e := range x.containerMade() {
+				if kit.IsDisposable(e.Impl) && w.M.Regs[e.Reg].Life == kit.Singleton {
+					built = append(built, e)
+				}
+			}
+			for _, e := range built {
+				if e.Inv == nil {
+					continue
+				}
+				for _, a := range e.Inv.Args {
+					for _, d := range a.Entries {
+						for _, b := range built {
+							related = related || d == b
+						}
+					}
+				}
+			}
+			canon := fmt.Sprintf("%s || Build fails at constructor invocation %d of %d (r%d, %s)", cfg, k, n, inv.Reg, how)
+			col.Case(related && x.Build.Err != nil, canon, canon, "failure:"+how, fmt.Sprintf("build-failed=%v", x.Build.Err != nil))
+			var f *Failure
+			switch {
+			case x.Build.Panic != nil:
+				f = fail("C11", "no-panic", "failed-build", "Build panicked: %v", x.Build.Panic)
+			case x.Build.Err == nil:
+				// the fault sat behind an optional dependency, or the cancellation came with the last constructor
+				x.exec(Op{Kind: "pclose"})
+				f = x.checkC11()
+			default:
+				// the failed Build has disposed everything itself: judge that disposal like a provider Close
+				x.R.PClosed, x.R.PCloseBeg, x.R.PCloseEnd = true, x.Build.StartSeq, x.Build.EndSeq
+				f = x.checkC11()
+				if f == nil {
+					f = x.checkC11Deps()
+				}
+			}
+			if f != nil {
+				if isKnown(f) {
+					col.Excluded()
+					continue
+				}
+				rt.Fatalf("VIOLATION %s\n%s", f, canon)
+			}
+		}
+	})
+}
